@@ -1270,6 +1270,8 @@ _GEN_GRAMMARS = {
     'S -> ST; T -> abc': [('S', ['ST']), ('T', ['abc'])],
     'S -> AB | eps; A -> a | eps; B -> b': [('S', ['AB', '']), ('A', ['a', '']), ('B', ['b'])],
     'S -> AB | ABB; A -> a; B -> b': [('S', ['AB', 'ABB']), ('A', ['a']), ('B', ['b'])],
+    # 26 variables: the fresh-name providers take their other branch (seed C02-k)
+    '26 variables: S -> aSb | A; A -> B; ...; Z -> c': [('S', ['aSb', 'A'])] + [(x0, [y0]) for x0, y0 in zip('ABCDEFGHIJKLMNOPQRTUVWXY', 'BCDEFGHIJKLMNOPQRTUVWXYZ')] + [('Z', ['c'])],
 }
 _PHASES = ['cfg_add_new_start_variable_in_place', 'cfg_remove_epsilon_rules_in_place', 'cfg_eliminate_unit_rules_in_place', 'cfg_make_rules_of_length_two_in_place', 'cfg_eliminate_terminals_in_place']
 
@@ -1326,7 +1328,7 @@ def check_chomsky_phases(ctx, rep, funcs, rule=RULE + '.M28', first_rule=False):
     except (Unsupported, RecursionError) as e:
         rep.undecided(rule, f0, 'def ' + f0.name, 'outside the evaluator: {}'.format(e))
         return
-    rep.holds(rule, funcs[-1], 'def cfg_to_chomsky_in_place (pipeline)', 'on {} phase runs (eleven model grammars with epsilon rules, nullable chains, unit cycles, long right-hand sides, terminals inside them, a variable that already has the tail of a long rule among its alternatives; two iteration orders of sets) every phase keeps the words up to length 3 and the declared variables, and the final grammar is in Chomsky normal form'.format(cases))
+    rep.holds(rule, funcs[-1], 'def cfg_to_chomsky_in_place (pipeline)', 'on {} phase runs (twelve model grammars with epsilon rules, nullable chains, unit cycles, long right-hand sides, terminals inside them, a variable that already has the tail of a long rule among its alternatives; two iteration orders of sets) every phase keeps the words up to length 3 and the declared variables, and the final grammar is in Chomsky normal form'.format(cases))
 
 
 # ---- the accepts / rejects checker on a model DFA ------------------------------------------------------------------------------------
@@ -1578,6 +1580,8 @@ def check_cfg_membership(ctx, rep, f, rule=RULE + '.M32'):
     cases = 0
     try:
         for name, rules in _GEN_GRAMMARS.items():
+            if name.startswith('26 variables'):
+                continue      # the conversion of this one is decided phase by phase (M28); 40 membership tests on it cost half a minute
             G0 = _grammar(rules)
             plain = _rules_of(G0)
             sigma = sorted({x for _, syms in plain for x, kind in syms if kind == 'Terminal'})
